@@ -85,15 +85,109 @@ let run_buffer op a =
   | "prefixval", [x] -> show hex_of_z (prefix_value (buf_of_string x))
   | _ -> "BADOP " ^ op
 
+
+(* ---- layer 2: SCHC core over bit lists ------------------------------------------------------ *)
+let bits_of_string s = if s = "-" then [] else List.init (String.length s) (fun i -> s.[i] = '1')
+let string_of_bits l = if l = [] then "-" else String.concat "" (List.map (fun b -> if b then "1" else "0") l)
+
+let toks : string array ref = ref [||]
+let cur = ref 0
+let next () = let t = !toks.(!cur) in incr cur; t
+let next_int () = int_of_string (next ())
+let next_bits () = bits_of_string (next ())
+let rec repeat_read n f = if n <= 0 then [] else let x = f () in x :: repeat_read (n - 1) f
+
+let proto_of = function "4" -> P_IPv4 | "6" -> P_IPv6 | "U" -> P_UDP | "C" -> P_CoAP | "S" -> P_SCTP | _ -> P_Other
+let string_of_proto = function P_IPv4 -> "4" | P_IPv6 -> "6" | P_UDP -> "U" | P_CoAP -> "C" | P_SCTP -> "S" | P_Other -> "O"
+let read_fid () = let p = proto_of (next ()) in let i = next_int () in { fproto = p; fidx = z_of_int i }
+let dir_of = function "U" -> Up | "D" -> Dw | _ -> Bi
+let read_dir_opt () = match next () with "N" -> None | d -> Some (dir_of d)
+let read_tv () =
+  match next () with
+  | "b" -> TVbuf (next_bits ())
+  | _ -> let k = next_int () in TVmap (repeat_read k (fun () -> let v = next_bits () in let i = next_bits () in (v, i)))
+let read_rfd () =
+  let id = read_fid () in
+  let len = next_int () in
+  let pos = next_int () in
+  let d = dir_of (next ()) in
+  let m = (match next () with "e" -> MO_equal | "i" -> MO_ignore | "m" -> MO_msb | _ -> MO_mapping) in
+  let c = (match next () with "n" -> NotSent | "l" -> LSB | "m" -> MappingSent | "v" -> ValueSent | _ -> Compute) in
+  let t = read_tv () in
+  { r_id = id; r_len = z_of_int len; r_pos = z_of_int pos; r_dir = d; r_tv = t; r_mo = m; r_cda = c }
+let read_rule () =
+  let _ = next () in (* "R" *)
+  let id = next_bits () in
+  let nat = (match next () with "C" -> Compression | _ -> NoCompression) in
+  let n = next_int () in
+  { rule_id = id; rule_nature = nat; rule_fds = repeat_read n read_rfd }
+let read_rules () = let n = next_int () in repeat_read n read_rule
+let read_field () =
+  let id = read_fid () in let pos = next_int () in let v = next_bits () in
+  { f_id = id; f_val = v; f_pos = z_of_int pos }
+let read_pdesc () =
+  let _ = next () in (* "P" *)
+  let d = dir_of (next ()) in
+  let n = next_int () in
+  let fs = repeat_read n read_field in
+  let pl = next_bits () in
+  { pd_dir = d; pd_fields = fs; pd_payload = pl }
+let read_fields () =   (* decompressed field list: n (proto idx bits)* *)
+  let n = next_int () in
+  repeat_read n (fun () -> let id = read_fid () in let v = next_bits () in (id, v))
+
+let rec index_of x l i = match l with [] -> -1 | y :: r -> if y == x then i else index_of x r (i + 1)
+let rec show_gen rules g = match g with
+  | GDone -> []
+  | GYield (r, rest) -> string_of_int (index_of r rules 0) :: show_gen rules rest
+  | GRaise e -> ["!" ^ exn_name e]
+
+let run_schc op =
+  match op with
+  | "compress" -> let pd = read_pdesc () in let r = read_rule () in let d = read_dir_opt () in
+    show string_of_bits (compress pd r d)
+  | "decompress" -> let s = next_bits () in let r = read_rule () in let d = read_dir_opt () in
+    show string_of_bits (decompress compute_functions s r d)
+  | "match" -> let pd = read_pdesc () in let rules = read_rules () in
+    "OK " ^ String.concat "," (show_gen rules (match_packet_descriptor rules pd))
+  | "matchschc" -> let s = next_bits () in let rules = read_rules () in
+    show (fun r -> string_of_int (index_of r rules 0)) (match_schc_packet rules s)
+  | "cmcompress" ->   (* pre-parsed packet: the parser is the constant function returning the given fields *)
+    let pd = read_pdesc () in let st = (match next () with "F" -> FIRST | _ -> BEST) in let rules = read_rules () in
+    show string_of_bits (cm_compress (fun _ -> Ok (pd.pd_fields, pd.pd_payload)) rules [] pd.pd_dir st)
+  | "cmdecompress" -> let s = next_bits () in let d = read_dir_opt () in let rules = read_rules () in
+    show string_of_bits (cm_decompress compute_functions rules s d)
+  | "encodelength" -> let n = next_int () in show string_of_bits (encode_length (z_of_int n))
+  | "decodevar" -> let s = next_bits () in let (r, c) = decode_var s in "OK " ^ string_of_bits r ^ " " ^ string_of_int (int_of_z c)
+  | "compute" -> let which = next () in let fs = read_fields () in let pos = next_int () in
+    let f = (match which with "ipv6len" -> ipv6_payload_length | "ipv4len" -> ipv4_total_length | "ipv4csum" -> ipv4_checksum
+                            | "udplen" -> udp_length | "udpcsum" -> udp_checksum | _ -> sctp_checksum) in
+    show string_of_bits (f fs (z_of_int pos))
+  | "schc" ->   (* front end: contexts given as pre-parsed outcomes: per context either a pdesc or a parser error *)
+    let what = next () in
+    let packet = next_bits () in
+    let n = next_int () in
+    let ctxs = repeat_read n (fun () ->
+      let parsed = (match next () with
+                    | "ok" -> let pd = read_pdesc () in Ok (pd.pd_fields, pd.pd_payload)
+                    | _ -> Exc ParserError) in
+      let rules = read_rules () in
+      { ctx_parse = (fun _ -> parsed); ctx_rules = rules }) in
+    if what = "compress" then show string_of_bits (schc_compress ctxs packet)
+    else show string_of_bits (schc_decompress compute_functions ctxs packet)
+  | _ -> "BADOP " ^ op
+
 let () =
   try
     while true do
       let line = input_line stdin in
-      let toks = List.filter (fun s -> s <> "") (String.split_on_char ' ' line) in
+      let ltoks = List.filter (fun s -> s <> "") (String.split_on_char ' ' line) in
       let out =
-        match toks with
+        match ltoks with
         | [] -> "EMPTY"
         | "B" :: op :: args -> (try run_buffer op args with Failure m -> "FAIL " ^ m | Stack_overflow -> "FAIL stack")
+        | "S" :: op :: args -> (toks := Array.of_list args; cur := 0;
+                                try run_schc op with Failure m -> "FAIL " ^ m | Stack_overflow -> "FAIL stack" | Invalid_argument m -> "FAIL " ^ m)
         | op :: _ -> "BADLAYER " ^ op in
       print_string out; print_newline ()
     done
